@@ -1,6 +1,157 @@
-(* C56 - placeholder while the development is being built *)
-From Coq Require Import List. Import ListNotations.
-From SAV.sql Require Import Upsert.
-Theorem c56_placeholder : forall (t : table), t ++ [] = t.
-Proof. exact (@app_nil_r row). Qed.
-Print Assumptions c56_placeholder.
+(* C56 - upsert statements insert or update exactly as their conflict clause says.
+   Statements only; every proof is [exact <lemma>].
+
+   [exec_impl shuffle sqlite embed cols ixs sa returning sorted page t ps] is the implementation path:
+   user construct [sa] -> clause assembly (visit_on_conflict_do_update ...) -> rendered tokens -> the
+   database's parser -> executemany strategy (row at a time / multi-row VALUES batches) over the reference
+   database.  [upsert_spec ixs cls t ps] is the insert-or-update model: the fold of [upsert_one] over the
+   parameter sets, for the clauses [cls = spec_of cols sa] the user's arguments SAY (SET items in the
+   user's order, keys resolved to columns).  [shuffle] is the arbitrary order in which a database returns
+   the RETURNING rows of one multi-row statement. *)
+From Coq Require Import List ZArith Bool Permutation.
+Import ListNotations.
+From SAV.sql Require Import Upsert UpsertAsm UpsertParse UpsertSpec UpsertSynProofs UpsertAsmProofs
+  UpsertExecProofs UpsertMyProofs UpsertWitness.
+
+(* the rendered ON CONFLICT text parses back (hand-written parser over tokens) to exactly the abstract
+   clauses it denotes, for every clause list that denotes something *)
+Theorem c56_render_parse_roundtrip : forall cols cs cls,
+  NoDup (map cname cols) ->
+  abs_clauses cols cs = Some cls -> parse_clauses cols (r_clauses cols cs) = Some cls.
+Proof. intros cols cs cls H. exact (parse_render_clauses cols H cs cls). Qed.
+Print Assumptions c56_render_parse_roundtrip.
+
+(* clause ASSEMBLY: what visit_on_conflict_do_update / _on_conflict_target render denotes the user's
+   clause - same conflict target, same WHERE, the SET items a permutation of the user's items *)
+Theorem c56_assembly_denotes_user_clauses : forall cols sa cls,
+  wf_cols cols -> spec_of cols sa = Some cls -> Forall sets_nodup cls ->
+  exists cls', abs_clauses cols (map (asm_clause cols) sa) = Some cls' /\ Forall2 clause_perm cls' cls.
+Proof. intros cols sa cls H. exact (asm_clauses_perm cols H sa cls). Qed.
+Print Assumptions c56_assembly_denotes_user_clauses.
+
+(* the order of the SET items is irrelevant for an SQL UPDATE (simultaneous assignment) *)
+Theorem c56_set_order_irrelevant : forall ixs cls cls' t newr bp,
+  Forall2 clause_perm cls cls' -> Forall sets_nodup cls ->
+  upsert_one ixs cls t newr bp = upsert_one ixs cls' t newr bp.
+Proof. exact upsert_one_perm. Qed.
+Print Assumptions c56_set_order_irrelevant.
+
+(* MAIN (upsert_eq_insert_or_update_model), guarded: for all existing tables, parameter sets (conflicting or
+   not, duplicates inside one executemany included), conflict clauses, RETURNING modes and page sizes: the
+   table after the executemany is the fold of upsert_one, the returned rows are the affected rows (up to
+   the order inside one multi-row statement), errors coincide.  Guards: no bound literal in index_where
+   under executemany on SQLite (refuted below), and a batched execution has no per-row bindparam() outside
+   the VALUES list (refuted below for WHERE on SQLite and for SET with an embedded counter on PostgreSQL) *)
+Theorem c56_upsert_eq_insert_or_update_model_guarded :
+  forall shuffle, (forall l, Permutation (shuffle l) l) ->
+  forall sqlite embed cols ixs sa returning sorted page t ps cls,
+    wf_cols cols -> chain_ok sa = true -> spec_of cols sa = Some cls -> Forall sets_nodup cls ->
+    sqlite && existsb uses_literal_execute sa && Nat.ltb 1 (length ps) = false ->
+    (batched embed returning sorted (length ps) sa = true -> batch_safe sa = true) ->
+    res_equiv (exec_impl shuffle sqlite embed cols ixs sa returning sorted page t ps)
+              (upsert_spec ixs cls t ps).
+Proof. exact exec_impl_equiv. Qed.
+Print Assumptions c56_upsert_eq_insert_or_update_model_guarded.
+
+(* returning_rows_in_param_order: with sort_by_parameter_order (no embedded counter: always on SQLite) the
+   result is EXACTLY the model's - rows of the affected parameter sets in parameter order, none for a
+   skipped one - whatever order the database returns the rows of a statement in, bindparams anywhere *)
+Theorem c56_returning_rows_in_param_order :
+  forall shuffle, (forall l, Permutation (shuffle l) l) ->
+  forall sqlite cols ixs sa returning page t ps cls,
+    wf_cols cols -> chain_ok sa = true -> spec_of cols sa = Some cls -> Forall sets_nodup cls ->
+    sqlite && existsb uses_literal_execute sa && Nat.ltb 1 (length ps) = false ->
+    exec_impl shuffle sqlite false cols ixs sa returning true page t ps = upsert_spec ixs cls t ps.
+Proof. exact returning_in_param_order. Qed.
+Print Assumptions c56_returning_rows_in_param_order.
+
+(* without RETURNING (DBAPI executemany) the executemany is exactly the model *)
+Theorem c56_no_returning_exact :
+  forall shuffle, (forall l, Permutation (shuffle l) l) ->
+  forall sqlite embed cols ixs sa sorted page t ps cls,
+    wf_cols cols -> chain_ok sa = true -> spec_of cols sa = Some cls -> Forall sets_nodup cls ->
+    sqlite && existsb uses_literal_execute sa && Nat.ltb 1 (length ps) = false ->
+    exec_impl shuffle sqlite embed cols ixs sa false sorted page t ps = upsert_spec ixs cls t ps.
+Proof. exact no_returning_exact. Qed.
+Print Assumptions c56_no_returning_exact.
+
+(* a clause without conflict target that is not the last one is rejected at construction *)
+Theorem c56_targetless_clause_must_be_last :
+  forall shuffle sqlite embed cols ixs sa returning sorted page t ps,
+    chain_ok sa = false ->
+    exec_impl shuffle sqlite embed cols ixs sa returning sorted page t ps = Err EInvalidRequest.
+Proof. exact chain_error. Qed.
+Print Assumptions c56_targetless_clause_must_be_last.
+
+(* REFUTED (reproduced on SQLite, KNOWN-FINDING C56-where-bindparam-batched): bindparam() inside DO UPDATE
+   .. WHERE, RETURNING without sort_by_parameter_order: all guards but batch_safe hold, the table differs *)
+Theorem c56_where_bindparam_batched_refuted :
+  exists cls, spec_of w_cols wa_sa = Some cls /\ Forall sets_nodup cls /\ chain_ok wa_sa = true /\
+    existsb uses_literal_execute wa_sa = false /\
+    ~ res_equiv (exec_impl idf true false w_cols w_ixs wa_sa true false 1000 wa_t wa_ps)
+                (upsert_spec w_ixs cls wa_t wa_ps).
+Proof. exact where_bindparam_batched_refuted. Qed.
+Print Assumptions c56_where_bindparam_batched_refuted.
+
+(* REFUTED (reproduced on SQLite, KNOWN-FINDING C56-sqlite-index-where-executemany) *)
+Theorem c56_index_where_literal_executemany_refuted :
+  exists cls, spec_of w_cols wb_sa = Some cls /\ Forall sets_nodup cls /\ chain_ok wb_sa = true /\
+    batch_safe wb_sa = true /\
+    exec_impl idf true false w_cols w_ixs_partial wb_sa false false 1000 [] wb_ps = Err EInvalidRequest /\
+    upsert_spec w_ixs_partial cls [] wb_ps = Ok ([[Some 1; None; Some 1; Some 1]], [[Some 1; None; Some 1; Some 1]])%Z.
+Proof. exact index_where_literal_executemany_refuted. Qed.
+Print Assumptions c56_index_where_literal_executemany_refuted.
+
+(* REFUTED (reproduced offline on the batches _deliver_insertmanyvalues_batches yields for PostgreSQL,
+   KNOWN-FINDING C56-pg-embedded-counter-set-bindparam) *)
+Theorem c56_pg_embedded_counter_set_bindparam_refuted :
+  exists cls, spec_of w_cols wc_sa = Some cls /\ Forall sets_nodup cls /\ chain_ok wc_sa = true /\
+    ~ res_equiv (exec_impl idf false true w_cols w_ixs wc_sa true true 1000 wc_t wc_ps)
+                (upsert_spec w_ixs cls wc_t wc_ps).
+Proof. exact pg_embedded_counter_set_bindparam_refuted. Qed.
+Print Assumptions c56_pg_embedded_counter_set_bindparam_refuted.
+
+(* MySQL ON DUPLICATE KEY UPDATE: round trip + one statement per parameter set = the (sequential-assignment,
+   any-unique-key) model over the rendered assignments *)
+Theorem c56_mysql_eq_model :
+  forall shuffle, (forall l, Permutation (shuffle l) l) ->
+  forall cols ixs alias ordered upd sets t ps,
+    NoDup (map cname cols) -> my_asm cols ordered upd <> [] ->
+    abs_sets cols (my_asm cols ordered upd) = Some sets ->
+    exec_mysql shuffle cols ixs alias ordered upd t ps = my_upsert_spec ixs sets t ps.
+Proof. exact exec_mysql_eq. Qed.
+Print Assumptions c56_mysql_eq_model.
+
+(* ... where the assignments are the user's, in the user's order, when a list of tuples is given
+   (MySQL evaluates them left to right); keys that are no table column are dropped *)
+Theorem c56_mysql_ordered_list_keeps_user_order : forall cols upd,
+  wf_cols cols -> NoDup (map fst upd) ->
+  map (A cols) (my_asm cols true upd) = my_spec_ordered cols upd.
+Proof. intros cols upd H. exact (my_asm_ordered cols H upd). Qed.
+Print Assumptions c56_mysql_ordered_list_keeps_user_order.
+
+(* ... and in table column order when a dict is given *)
+Theorem c56_mysql_dict_uses_table_column_order : forall cols upd,
+  wf_cols cols ->
+  map (A cols) (my_asm cols false upd) =
+  flat_map (fun i => match my_lookup (ckey (nth i cols dflt_col)) upd with
+                     | Some e => [set_item (length cols) (Some i) e]
+                     | None => []
+                     end) (seq 0 (length cols)).
+Proof. intros cols upd H. exact (my_asm_dict cols H upd). Qed.
+Print Assumptions c56_mysql_dict_uses_table_column_order.
+
+(* non-vacuity: the guards of the main theorem are satisfiable by a batched two-clause upsert with a
+   partial index and duplicates inside the executemany; the excluded regions have agreeing neighbours *)
+Example c56_ex_guarded : exists cls, spec_of wd_cols wd_sa = Some cls /\ Forall sets_nodup cls /\
+    chain_ok wd_sa = true /\ wf_cols wd_cols /\
+    batched false true false (length wd_ps) wd_sa = true /\ batch_safe wd_sa = true /\
+    exec_impl idf true false wd_cols w_ixs_partial wd_sa true false 2 wd_t wd_ps =
+      Ok ([[Some 1; None; Some 4; Some 2]; [Some 2; Some 2; Some 5; Some 1]; [Some 4; Some 1; Some 0; Some 0]],
+          [[Some 1; None; Some 3; Some 1]; [Some 1; None; Some 4; Some 2]; [Some 4; Some 1; Some 0; Some 0]])%Z.
+Proof. exact guarded_batched_example. Qed.
+Example c56_ex_sorted_ok : exists cls, spec_of w_cols wa_sa = Some cls /\
+    exec_impl idf true false w_cols w_ixs wa_sa true true 1000 wa_t wa_ps = upsert_spec w_ixs cls wa_t wa_ps /\
+    upsert_spec w_ixs cls wa_t wa_ps =
+      Ok ([[Some 1; Some 0; Some 1; Some 5]; [Some 2; Some 1; Some 2; Some 0]], [[Some 1; Some 0; Some 1; Some 5]])%Z.
+Proof. exact where_bindparam_sorted_ok. Qed.
